@@ -57,13 +57,35 @@ structure Cfg where
 deriving Repr, DecidableEq, Inhabited
 
 /-- the fields of a received OPEN that ValidateOpenMsg, negotiateTimers and isDominant read;
-    `as` is the 4-octet AS (getASN). -/
+    `as` is the AS getASN extracts (`OpenWire.toMsg`). -/
 structure OpenMsg where
   version : Nat
   as      : Nat
   id      : Nat
   hold    : Nat
 deriving Repr, DecidableEq, Inhabited
+
+/-- AS_TRANS (RFC 6793), the My-AS field of a speaker whose AS does not fit 16 bits. -/
+def asTrans : Nat := 23456
+
+/-- The AS-related part of an OPEN as it is on the wire: the 2-octet My-AS field and the value
+    of the 4-octet-AS capability (code 65), if the OPEN carries one. -/
+structure OpenWire where
+  version : Nat
+  myas    : Nat
+  cap4    : Option Nat
+  id      : Nat
+  hold    : Nat
+deriving Repr, DecidableEq, Inhabited
+
+/-- getASN in fsm.go and the same loop at the top of ValidateOpenMsg: the capability value wins
+    over the My-AS field.  Both callers apply it BEFORE any test that looks at the AS. -/
+def getASN (w : OpenWire) : Nat :=
+  match w.cap4 with
+  | some a => a
+  | none => w.myas
+
+def OpenWire.toMsg (w : OpenWire) : OpenMsg := ⟨w.version, getASN w, w.id, w.hold⟩
 
 inductive Ev where
   | connect                 -- the remote opens a TCP connection (BgpServer.passConnToPeer)
